@@ -21,16 +21,17 @@ import (
 )
 
 type fragCtx struct {
-	f       *fn
-	name    string
-	aux     []string          // auxiliary loop definitions
-	nloops  int
-	params  []string          // lean names of the parameters, in order
-	ptypes  []string          // lean types of the parameters
-	ret     string            // lean return type
-	heads   map[string]string // slice var -> lean name of its known head element (guarded s[0])
-	loopVar map[string][2]string // index var -> (slice, element name) inside a canonical indexed loop
-	err     string
+	f         *fn
+	name      string
+	aux       []string // auxiliary loop definitions
+	nloops    int
+	params    []string             // lean names of the parameters, in order
+	ptypes    []string             // lean types of the parameters
+	ret       string               // lean return type
+	heads     map[string]string    // slice var -> lean name of its known head element (guarded s[0])
+	loopVar   map[string][2]string // index var -> (slice, element name) inside a canonical indexed loop
+	inLoopRet string               // non-empty inside a loop body with returns: constructor wrapping a returned value
+	err       string
 }
 
 var leanReserved = map[string]bool{"end": true, "fun": true, "at": true, "from": true, "in": true, "then": true,
@@ -445,9 +446,10 @@ func (c *fragCtx) rhs(e ast.Expr, t types.Type) string {
 }
 
 // trIf: shapes  (a) then-branch always returns, no else:  if c then A else REST
-//               (b) both branches always return:          if c then A else B
-//               (c) no return inside:                      let vars := if c then (A; vars) else (B; vars); REST
-//               plus the two length guards that give s[0] a name.
+//
+//	(b) both branches always return:          if c then A else B
+//	(c) no return inside:                      let vars := if c then (A; vars) else (B; vars); REST
+//	plus the two length guards that give s[0] a name.
 func (c *fragCtx) trIf(x *ast.IfStmt, after []ast.Stmt, k func() string) string {
 	if x.Init != nil {
 		return c.fail("if with init")
@@ -492,13 +494,13 @@ func (c *fragCtx) trIf(x *ast.IfStmt, after []ast.Stmt, k func() string) string 
 	_, thenHas := assignedIn(x.Body.List)
 	_, elsHas := assignedIn(els)
 	switch {
-	case thenRet && x.Else == nil:
-		return "if " + cond + " then (" + c.stmts(x.Body.List, nil) + ") else (" + rest() + ")"
-	case thenRet && elsRet:
-		return "if " + cond + " then (" + c.stmts(x.Body.List, nil) + ") else (" + c.stmts(els, nil) + ")"
-	case thenRet && !elsHas:
-		// else branch falls through to REST
-		return "if " + cond + " then (" + c.stmts(x.Body.List, nil) + ") else (" + c.stmts(els, rest) + ")"
+	case thenRet:
+		// the else branch (possibly empty) falls through to what follows
+		return "if " + cond + " then (" + c.stmts(x.Body.List, nil) + ") else (" +
+			c.stmts(append(append([]ast.Stmt{}, els...), after...), k) + ")"
+	case elsRet:
+		return "if " + cond + " then (" + c.stmts(append(append([]ast.Stmt{}, x.Body.List...), after...), k) +
+			") else (" + c.stmts(els, nil) + ")"
 	case !thenHas && !elsHas:
 		vars, _ := assignedIn(append(append([]ast.Stmt{}, x.Body.List...), els...))
 		k2 := func() string { return tuple(vars) }
